@@ -70,6 +70,11 @@ func (group *Group) OnSdp(sdpCtx sdp.LogicContext) {
 func (group *Group) OnRtpPacket(pkt rtprtcp.RtpPacket) {
 	group.mutex.Lock()
 	defer group.mutex.Unlock()
+	// 注意，和 OnAvPacket 中的情况一样，rtsp输入流的命令连接和数据接收是并行的，
+	// 输入流已经结束（或者新的输入流的sdp还没有到达）时依然可能有rtp包回调上来，此时没有流的描述信息，包不再转发
+	if group.sdpCtx == nil {
+		return
+	}
 	group.feedRtpPacket(pkt)
 	if group.rtspPullDumpFile != nil {
 		group.rtspPullDumpFile.WriteWithType(pkt.Raw, base.DumpTypeRtspRtpData)
